@@ -787,12 +787,27 @@ def canonical_statements(trees: list[ast.Module]) -> dict[str, int]:
                     loop = blk[i + 1]
                     if tgt and isinstance(val, ast.List) and not val.elts \
                             and len(loop.body) == 1:
-                        conds: list[ast.expr] = []
+                        # a chain of nested ``for`` / ``if`` (no else) that
+                        # ends in ``tgt.append(e)``
+                        gens: list[ast.comprehension] = [ast.comprehension(
+                            target=loop.target, iter=loop.iter, ifs=[],
+                            is_async=0)]
                         inner: ast.stmt = loop.body[0]
-                        while isinstance(inner, ast.If) and not inner.orelse \
-                                and len(inner.body) == 1:
-                            conds.append(inner.test)
-                            inner = inner.body[0]
+                        ok_chain = True
+                        while True:
+                            if isinstance(inner, ast.If) and not inner.orelse \
+                                    and len(inner.body) == 1:
+                                gens[-1].ifs.append(inner.test)
+                                inner = inner.body[0]
+                            elif isinstance(inner, ast.For) and not \
+                                    inner.orelse and len(inner.body) == 1:
+                                gens.append(ast.comprehension(
+                                    target=inner.target, iter=inner.iter,
+                                    ifs=[], is_async=0))
+                                inner = inner.body[0]
+                            else:
+                                break
+                        parts = [x for g in gens for x in [g.iter] + g.ifs]
                         if isinstance(inner, ast.Expr) and isinstance(
                                 inner.value, ast.Call) and isinstance(
                                 inner.value.func, ast.Attribute) \
@@ -802,14 +817,10 @@ def canonical_statements(trees: list[ast.Module]) -> dict[str, int]:
                                 and inner.value.func.value.id == tgt \
                                 and len(inner.value.args) == 1 \
                                 and not inner.value.keywords \
-                                and not mentions(loop.iter, tgt) \
                                 and not mentions(inner.value.args[0], tgt) \
-                                and not any(mentions(c, tgt) for c in conds):
-                            comp = ast.ListComp(
-                                elt=inner.value.args[0],
-                                generators=[ast.comprehension(
-                                    target=loop.target, iter=loop.iter,
-                                    ifs=conds, is_async=0)])
+                                and not any(mentions(c, tgt) for c in parts):
+                            comp = ast.ListComp(elt=inner.value.args[0],
+                                                generators=gens)
                             new = ast.Assign(
                                 targets=[ast.Name(id=tgt, ctx=ast.Store())],
                                 value=comp)
